@@ -40,7 +40,8 @@ const qAll = 6
 func probeNames() []string {
 	return []string{"seq", "neg-midbulk", "fetch-stale-blocks", "handover", "retry-append", "range-clamp", "suicided-proxy", "getlids-overlap",
 		"handover-files", "handover-skipsort", "handover-keepmeta", "handover-skipsort-keepmeta",
-		"suicide-at-swap-files", "suicide-at-swap-skipsort", "suicide-unsealed-files", "suicide-unsealed-skipsort"}
+		"suicide-at-swap-files", "suicide-at-swap-skipsort", "suicide-unsealed-files", "suicide-unsealed-skipsort",
+		"seal-pool-3", "seal-pool-3-skipsort"}
 }
 
 // handoverFiles is the witness schedule of Props.C07_release_misplaced_close_v0_refuted, longer: write, search on the
@@ -64,6 +65,32 @@ func handoverFiles(o Opts) *Input {
 		rep(w, 11), []Label{{K: "Rot"}}, rep(Label{K: "M", T: 1}, 7),
 		[]Label{{K: "Snap", T: 0}, {K: "FB", T: 0, J: 0, IDs: ids}, {K: "FB", T: 0, J: 1, IDs: [][2]uint64{{10, 2}}}, {K: "SB", T: 0, J: 1, Q: qAll},
 			{K: "Sui"}, {K: "FB", T: 0, J: 0, IDs: ids}, {K: "FB", T: 0, J: 1, IDs: [][2]uint64{{10, 2}}}, {K: "FB", T: 1, J: 0, IDs: ids}})}
+}
+
+// sealPool3: three fractions with 3, 2 and 2 documents - every document a block of sorted docs of its own
+// (DocBlockSize 64) - are sealed one after the other in one process; after EVERY seal every document of every sealed
+// fraction is fetched (witness of Props.C07_sealed_offsets_noclone_v0_refuted: the second seal reuses the pooled
+// docBlocksWriter of the first)
+func sealPool3(o Opts) *Input {
+	w := Label{K: "W", T: 0}
+	o.DocBlockSize = 64
+	mk := func(mid, rid uint64) Doc { return Doc{MID: mid, RID: rid, Toks: []int{1}, Body: int(rid)} }
+	bulks := [][]Doc{{mk(10, 1), mk(20, 2), mk(30, 3)}, {mk(10, 4), mk(20, 5)}, {mk(30, 6), mk(40, 7)}}
+	ids := func(b []Doc) [][2]uint64 {
+		var out [][2]uint64
+		for _, d := range b {
+			out = append(out, [2]uint64{d.MID, d.RID})
+		}
+		return out
+	}
+	var ls []Label
+	for k := range bulks {
+		ls = cat(ls, rep(w, 11), []Label{{K: "Rot"}}, rep(Label{K: "M", T: k}, 7), []Label{{K: "Snap", T: 0}})
+		for j := 0; j <= k; j++ {
+			ls = append(ls, Label{K: "FB", T: 0, J: j, IDs: ids(bulks[j])}, Label{K: "SB", T: 0, J: j, Q: qAll})
+		}
+	}
+	return &Input{Opts: &o, Bulks: [][][]Doc{bulks}, Queries: stdQueries, Labels: ls}
 }
 
 // suicideAtSwap: retention deletes the fraction while its seal thread is parked between the swap and Active.Release
@@ -100,6 +127,10 @@ func probeInput(name string) *Input {
 		return handoverFiles(Opts{KeepMetaFile: true})
 	case "handover-skipsort-keepmeta":
 		return handoverFiles(Opts{SkipSortDocs: true, KeepMetaFile: true})
+	case "seal-pool-3":
+		return sealPool3(Opts{})
+	case "seal-pool-3-skipsort":
+		return sealPool3(Opts{SkipSortDocs: true})
 	case "suicide-at-swap-files":
 		return suicideAtSwap(Opts{})
 	case "suicide-at-swap-skipsort":
